@@ -349,160 +349,140 @@ theorem firedSeq_flatten (cs : List Int) (tl : List Event) :
     simp only [firedSeq, leftSeq, List.flatten_cons, List.append_assoc, ih]
     exact List.takeWhile_append_dropWhile
 
-/-! ## The update tree: frame and last-write lemmas -/
+/-! ## The update tree: `nested_set` writes one path and leaves the others alone -/
 
 /-- neither path is a prefix of the other -/
 def Diverge : Path → Path → Prop
   | x :: xs, y :: ys => x ≠ y ∨ Diverge xs ys
   | _, _ => False
 
-/-- neither a list nor a dictionary -/
-def Scalar (v : Val) : Prop := v.isDict = false ∧ v.isList = false
-
-def chainVal : Path → Val → Val
-  | [], v => v
-  | k :: rest, v => .dict (chain k rest v)
-
-theorem chain_eq (k : String) (rest : Path) (v : Val) : chain k rest v = [(k, chainVal rest v)] := by
-  cases rest <;> rfl
-
 theorem resolve_dict_cons (u : KVs) (k : String) (rest : Path) :
     resolve (.dict u) (k :: rest) = (KV.lookup k u).bind (fun c => resolve c rest) := rfl
 
-theorem resolve_nondict (v : Val) (k : String) (rest : Path) (h : v.isDict = false) :
-    resolve v (k :: rest) = Option.none := by
-  cases v <;> simp [resolve, Val.isDict] at h ⊢
+/-- `nested_set` can walk the path: every proper prefix is absent or a dictionary -/
+def Walkable : KVs → Path → Prop
+  | _, [] => False
+  | _, [_] => True
+  | u, k :: k2 :: rest =>
+    match KV.lookup k u with
+    | Option.none => True
+    | some (.dict sub) => Walkable sub (k2 :: rest)
+    | some _ => False
 
-theorem resolve_chainVal_self (q : Path) (v : Val) : resolve (chainVal q v) q = some v := by
+theorem walkable_nil_kvs (p : Path) (hp : p ≠ []) : Walkable [] p := by
+  cases p with
+  | nil => exact absurd rfl hp
+  | cons k r => cases r <;> simp [Walkable, KV.lookup]
+
+/-- `nested_set` succeeds on a walkable path -/
+theorem nestedSet_ok (q : Path) : ∀ (u : KVs) (x : Val), Walkable u q → ∃ u', nestedSet u q x = .ok u' := by
   induction q with
-  | nil => rfl
+  | nil => intro u x h; simp [Walkable] at h
   | cons k rest ih =>
-    show resolve (.dict (chain k rest v)) (k :: rest) = some v
-    rw [chain_eq, resolve_dict_cons]
-    simp only [KV.lookup, if_true, Option.bind]
-    exact ih
+    intro u x h
+    cases rest with
+    | nil => exact ⟨_, rfl⟩
+    | cons k2 r2 =>
+      simp only [Walkable] at h
+      simp only [nestedSet]
+      cases hl : KV.lookup k u with
+      | none =>
+        obtain ⟨s', hs⟩ := ih [] x (walkable_nil_kvs _ (by simp))
+        exact ⟨KV.set k (.dict s') u, by simp [hs]⟩
+      | some w =>
+        rw [hl] at h
+        cases w with
+        | dict sub =>
+          obtain ⟨s', hs⟩ := ih sub x h
+          exact ⟨KV.set k (.dict s') u, by simp [hs]⟩
+        | _ => simp at h
 
-theorem resolve_chainVal_diverge (q p : Path) (v : Val) (hd : Diverge q p) :
-    resolve (chainVal q v) p = Option.none := by
-  induction q generalizing p with
-  | nil => cases p <;> simp [Diverge] at hd
+/-- **What `nested_set` does.** After a successful `nested_set(u, q, x)`: the path `q` reads `x`
+(whatever was there before, whatever `x` is); `q` stays walkable; every path diverging from `q`
+reads as before and stays walkable if it was. -/
+theorem nestedSet_spec (q : Path) : ∀ (u u' : KVs) (x : Val), nestedSet u q x = .ok u' →
+    resolve (.dict u') q = some x ∧ Walkable u' q ∧
+    ∀ p, Diverge q p →
+      resolve (.dict u') p = resolve (.dict u) p ∧ (Walkable u p → Walkable u' p) := by
+  induction q with
+  | nil => intro u u' x h; simp [nestedSet] at h
   | cons k rest ih =>
-    cases p with
-    | nil => simp [Diverge] at hd
-    | cons k' rest' =>
-      show resolve (.dict (chain k rest v)) (k' :: rest') = Option.none
-      rw [chain_eq, resolve_dict_cons]
-      simp only [KV.lookup]
-      by_cases hk : k = k'
-      · simp only [hk, if_true, Option.bind]
-        simp only [Diverge] at hd
-        rcases hd with hd | hd
-        · exact absurd hk hd
-        · exact ih _ hd
-      · simp [hk]
-
-theorem dmcl_single (u : KVs) (k : String) (x : Val) :
-    dmcl u [(k, x)] = KV.set k (match KV.lookup k u, x with
-      | some (.dict a), .dict b => Val.dict (dmcl a b)
-      | some (.list a), .list b => Val.list (combineLists a b)
-      | _, _ => x) u := by
-  rw [dmcl.eq_def]
-  simp only [dmcl.eq_1]
-  congr 1
-
-/-- **Frame**: merging the chain for path `k :: rest` into an update leaves every diverging
-path as it was. -/
-theorem resolve_dmcl_chain_frame (u : KVs) (k : String) (rest p : Path) (x : Val)
-    (hd : Diverge (k :: rest) p) :
-    resolve (.dict (dmcl u (chain k rest x))) p = resolve (.dict u) p := by
-  induction rest generalizing u k p with
-  | nil =>
-    cases p with
-    | nil => simp [Diverge] at hd
-    | cons k' rest' =>
-      simp only [Diverge] at hd
-      rcases hd with hd | hd
-      · rw [chain_eq, dmcl_single, resolve_dict_cons, resolve_dict_cons,
-          KV.lookup_set_other (fun e => hd e.symm)]
-      · cases rest' <;> simp [Diverge] at hd
-  | cons k2 r2 ih =>
-    cases p with
-    | nil => simp [Diverge] at hd
-    | cons k' rest' =>
-      by_cases hk : k' = k
-      · subst hk
-        have hd2 : Diverge (k2 :: r2) rest' := by
+    intro u u' x h
+    cases rest with
+    | nil =>
+      simp only [nestedSet] at h
+      injection h with h; subst h
+      refine ⟨by simp [resolve_dict_cons, resolve], by simp [Walkable], ?_⟩
+      intro p hd
+      cases p with
+      | nil => simp [Diverge] at hd
+      | cons k' r' =>
+        have hk : k' ≠ k := by
           simp only [Diverge] at hd
           rcases hd with hd | hd
-          · exact absurd rfl hd
-          · exact hd
-        rw [chain_eq, dmcl_single, resolve_dict_cons, resolve_dict_cons, KV.lookup_set_same]
-        simp only [chainVal, Option.bind]
-        cases hl : KV.lookup k' u with
+          · exact fun e => hd e.symm
+          · cases r' <;> simp [Diverge] at hd
+        refine ⟨by rw [resolve_dict_cons, resolve_dict_cons, KV.lookup_set_other hk], ?_⟩
+        cases r' with
+        | nil => simp [Walkable]
+        | cons k2' r2' => simp only [Walkable, KV.lookup_set_other hk]; exact id
+    | cons k2 r2 =>
+      -- the sub-dictionary the walk descends into, before and after
+      have key : ∃ sub sub', nestedSet sub (k2 :: r2) x = .ok sub' ∧ u' = KV.set k (.dict sub') u ∧
+          (KV.lookup k u = Option.none ∧ sub = [] ∨ KV.lookup k u = some (.dict sub)) := by
+        simp only [nestedSet] at h
+        cases hl : KV.lookup k u with
         | none =>
-          simp only []
-          have := resolve_chainVal_diverge (k2 :: r2) rest' x hd2
-          simpa [chainVal] using this
+          rw [hl] at h
+          cases hs : nestedSet [] (k2 :: r2) x with
+          | error e => simp [hs] at h
+          | ok s' =>
+            simp only [hs] at h; injection h with h
+            exact ⟨[], s', hs, h.symm, Or.inl ⟨rfl, rfl⟩⟩
         | some w =>
+          rw [hl] at h
           cases w with
-          | dict a =>
-            simp only []
-            exact ih a k2 rest' hd2
-          | _ =>
-            simp only []
-            have := resolve_chainVal_diverge (k2 :: r2) rest' x hd2
-            cases rest' with
+          | dict sub =>
+            cases hs : nestedSet sub (k2 :: r2) x with
+            | error e => simp [hs] at h
+            | ok s' =>
+              simp only [hs] at h; injection h with h
+              exact ⟨sub, s', hs, h.symm, Or.inr rfl⟩
+          | _ => (simp only [] at h; split at h <;> cases h)
+      obtain ⟨sub, sub', hs, hu', hsub⟩ := key
+      obtain ⟨i1, i2, i3⟩ := ih sub sub' x hs
+      subst hu'
+      refine ⟨?_, ?_, ?_⟩
+      · rw [resolve_dict_cons, KV.lookup_set_same]; exact i1
+      · simp only [Walkable, KV.lookup_set_same]; exact i2
+      · intro p hd
+        cases p with
+        | nil => simp [Diverge] at hd
+        | cons k' r' =>
+          by_cases hk : k' = k
+          · subst hk
+            have hd2 : Diverge (k2 :: r2) r' := by
+              simp only [Diverge] at hd
+              rcases hd with hd | hd
+              · exact absurd rfl hd
+              · exact hd
+            obtain ⟨j1, j2⟩ := i3 r' hd2
+            cases r' with
             | nil => simp [Diverge] at hd2
-            | cons y ys => simpa [chainVal, resolve] using this
-      · rw [chain_eq, dmcl_single, resolve_dict_cons, resolve_dict_cons, KV.lookup_set_other hk]
-
-theorem dmcl_leafSet (w v : Val) (hv : Scalar v) :
-    dmcl [("_value", w), ("_updater", .str "set")] [("_value", v), ("_updater", .str "set")]
-      = [("_value", v), ("_updater", .str "set")] := by
-  obtain ⟨h1, h2⟩ := hv
-  cases v <;> simp [Val.isDict, Val.isList] at h1 h2 <;>
-    simp [dmcl, KV.lookup, KV.set]
-
-/-- **Last write wins** at the written path, when what was there before is nothing or an
-earlier `{'_value': w, '_updater': 'set'}` and the new value is a scalar. -/
-theorem resolve_dmcl_chain_self (u : KVs) (k : String) (rest : Path) (v : Val) (hv : Scalar v)
-    (hprev : resolve (.dict u) (k :: rest) = Option.none ∨
-      ∃ w, resolve (.dict u) (k :: rest) = some (leafSet w)) :
-    resolve (.dict (dmcl u (chain k rest (leafSet v)))) (k :: rest) = some (leafSet v) := by
-  induction rest generalizing u k with
-  | nil =>
-    rw [chain_eq, dmcl_single, resolve_dict_cons, KV.lookup_set_same]
-    simp only [chainVal, Option.bind, resolve]
-    rw [resolve_dict_cons] at hprev
-    cases hl : KV.lookup k u with
-    | none => simp [leafSet]
-    | some w =>
-      simp only [hl, Option.bind, resolve] at hprev
-      rcases hprev with hprev | ⟨w', hprev⟩
-      · simp at hprev
-      · simp only [Option.some.injEq] at hprev
-        subst hprev
-        simp only [leafSet]
-        rw [dmcl_leafSet w' v hv]
-  | cons k2 r2 ih =>
-    rw [chain_eq, dmcl_single, resolve_dict_cons, KV.lookup_set_same]
-    simp only [chainVal, Option.bind]
-    rw [resolve_dict_cons] at hprev
-    cases hl : KV.lookup k u with
-    | none =>
-      simp only []
-      have := resolve_chainVal_self (k2 :: r2) (leafSet v)
-      simpa [chainVal] using this
-    | some w =>
-      cases w with
-      | dict a =>
-        simp only []
-        apply ih a k2
-        simpa [hl, Option.bind] using hprev
-      | _ =>
-        simp only []
-        have := resolve_chainVal_self (k2 :: r2) (leafSet v)
-        simpa [chainVal] using this
+            | cons k2' r2' =>
+              rw [resolve_dict_cons, resolve_dict_cons, KV.lookup_set_same]
+              simp only [Walkable, KV.lookup_set_same, Option.bind]
+              rcases hsub with ⟨hn, he⟩ | hsome
+              · subst he
+                rw [hn]
+                refine ⟨?_, fun _ => j2 (walkable_nil_kvs _ (by simp))⟩
+                rw [j1]; simp [resolve_dict_cons, KV.lookup]
+              · rw [hsome]
+                exact ⟨j1, j2⟩
+          · refine ⟨by rw [resolve_dict_cons, resolve_dict_cons, KV.lookup_set_other hk], ?_⟩
+            cases r' with
+            | nil => simp [Walkable]
+            | cons k2' r2' => simp only [Walkable, KV.lookup_set_other hk]; exact id
 
 /-! ## One tick and a run of ticks against their specification -/
 
@@ -520,18 +500,12 @@ structure WFVars (V : List Path) : Prop where
   noGlobal : ∀ p ∈ V, p.head? ≠ some "global"
   prefixFree : ∀ p ∈ V, ∀ q ∈ V, p ≠ q → Diverge p q
 
-structure WFWrites (V : List Path) (ws : Changes) : Prop where
-  paths : ∀ pv ∈ ws, pv.1 ∈ V
-  scalar : ∀ pv ∈ ws, Scalar pv.2
-
-/-- every event writes declared variables only, and scalar values -/
+/-- every event writes declared variables only (any values) -/
 structure WFTimeline (V : List Path) (tl : List Event) : Prop where
   paths : ∀ e ∈ tl, ∀ pv ∈ e.changes, pv.1 ∈ V
-  scalar : ∀ e ∈ tl, ∀ pv ∈ e.changes, Scalar pv.2
 
-theorem applyChanges_spec (V : List Path) (hV : WFVars V) (ws : Changes) (hw : WFWrites V ws)
-    (u : KVs)
-    (hu : ∀ p ∈ V, resolve (.dict u) p = Option.none ∨ ∃ w, resolve (.dict u) p = some (leafSet w)) :
+theorem applyChanges_spec (V : List Path) (hV : WFVars V) (ws : Changes)
+    (hw : ∀ pv ∈ ws, pv.1 ∈ V) (u : KVs) (hu : ∀ p ∈ V, Walkable u p) :
     ∃ u', applyChanges u ws = .ok u' ∧
       (∀ p ∈ V, resolve (.dict u') p =
         match lastWrite p ws with
@@ -542,39 +516,32 @@ theorem applyChanges_spec (V : List Path) (hV : WFVars V) (ws : Changes) (hw : W
   | nil => exact ⟨u, rfl, fun p _ => by simp [lastWrite], fun _ _ => rfl⟩
   | cons qv rest ih =>
     obtain ⟨q, v⟩ := qv
-    have hqV : q ∈ V := hw.paths (q, v) (by simp)
-    have hvs : Scalar v := hw.scalar (q, v) (by simp)
-    have hrest : WFWrites V rest :=
-      ⟨fun pv h => hw.paths pv (by simp [h]), fun pv h => hw.scalar pv (by simp [h])⟩
-    cases q with
-    | nil => exact absurd rfl (hV.nonempty _ hqV)
-    | cons k r =>
-      have hself := resolve_dmcl_chain_self u k r v hvs (hu _ hqV)
-      have hframe : ∀ p ∈ V, p ≠ k :: r →
-          resolve (.dict (dmcl u (chain k r (leafSet v)))) p = resolve (.dict u) p :=
-        fun p hp hne => resolve_dmcl_chain_frame u k r p _
-          (hV.prefixFree _ hqV _ hp (fun e => hne e.symm))
-      have hu1 : ∀ p ∈ V, resolve (.dict (dmcl u (chain k r (leafSet v)))) p = Option.none ∨
-          ∃ w, resolve (.dict (dmcl u (chain k r (leafSet v)))) p = some (leafSet w) := by
-        intro p hp
-        by_cases hpq : p = k :: r
-        · right; exact ⟨v, by rw [hpq]; exact hself⟩
-        · rw [hframe p hp hpq]; exact hu p hp
-      obtain ⟨u', h1, h2, h3⟩ := ih hrest _ hu1
-      refine ⟨u', by simp [applyChanges, changeTree, h1], ?_, ?_⟩
-      · intro p hp
-        rw [h2 p hp]
-        simp only [lastWrite]
-        cases hl : lastWrite p rest with
-        | some w => rfl
-        | none =>
-          simp only []
-          by_cases hpq : k :: r = p
-          · simp only [hpq, if_true]; rw [← hpq]; exact hself
-          · simp only [hpq, if_false]; exact hframe p hp (fun e => hpq e.symm)
-      · intro g hg
-        rw [h3 g hg]
-        exact resolve_dmcl_chain_frame u k r g _ (hg _ hqV)
+    have hqV : q ∈ V := hw (q, v) (by simp)
+    have hrest : ∀ pv ∈ rest, pv.1 ∈ V := fun pv h => hw pv (by simp [h])
+    obtain ⟨u1, hn⟩ := nestedSet_ok q u (leafSet v) (hu q hqV)
+    obtain ⟨hself, hwalk, hfr⟩ := nestedSet_spec q u u1 (leafSet v) hn
+    have hdiv : ∀ p ∈ V, p ≠ q → Diverge q p :=
+      fun p hp hne => hV.prefixFree _ hqV _ hp (fun e => hne e.symm)
+    have hu1 : ∀ p ∈ V, Walkable u1 p := by
+      intro p hp
+      by_cases hpq : p = q
+      · rw [hpq]; exact hwalk
+      · exact (hfr p (hdiv p hp hpq)).2 (hu p hp)
+    obtain ⟨u', h1, h2, h3⟩ := ih hrest u1 hu1
+    refine ⟨u', by simp [applyChanges, hn, h1], ?_, ?_⟩
+    · intro p hp
+      rw [h2 p hp]
+      simp only [lastWrite]
+      cases hl : lastWrite p rest with
+      | some w => rfl
+      | none =>
+        simp only []
+        by_cases hpq : q = p
+        · simp only [hpq, if_true]; rw [← hpq]; exact hself
+        · simp only [hpq, if_false]; exact (hfr p (hdiv p hp (fun e => hpq e.symm))).1
+    · intro g hg
+      rw [h3 g hg]
+      exact (hfr g (hg _ hqV)).1
 
 theorem applyChanges_append (u : KVs) (a b : Changes) :
     applyChanges u (a ++ b) =
@@ -586,7 +553,7 @@ theorem applyChanges_append (u : KVs) (a b : Changes) :
   | cons pv rest ih =>
     obtain ⟨p, v⟩ := pv
     simp only [List.cons_append, applyChanges]
-    cases changeTree p v with
+    cases nestedSet u p (leafSet v) with
     | error e => rfl
     | ok t => exact ih _
 
@@ -630,14 +597,19 @@ def specTick (dt : Int) (s : Sim) : Sim :=
 
 theorem tick_eq_spec (V : List Path) (hV : WFVars V) (s : Sim) (hT : WFTimeline V s.timeline)
     (hvars : ∀ pv ∈ s.vars, pv.1 ∈ V) (dt : Int) : tick dt s = .ok (specTick dt s) := by
-  have hw : WFWrites V ((s.timeline.takeWhile (due s.clock)).flatMap (·.changes)) := by
-    constructor
-    · intro pv hpv
-      obtain ⟨e, he, hpe⟩ := List.mem_flatMap.mp hpv
-      exact hT.paths e ((List.takeWhile_sublist _).subset he) pv hpe
-    · intro pv hpv
-      obtain ⟨e, he, hpe⟩ := List.mem_flatMap.mp hpv
-      exact hT.scalar e ((List.takeWhile_sublist _).subset he) pv hpe
+  have hw : ∀ pv ∈ (s.timeline.takeWhile (due s.clock)).flatMap (·.changes), pv.1 ∈ V := by
+    intro pv hpv
+    obtain ⟨e, he, hpe⟩ := List.mem_flatMap.mp hpv
+    exact hT.paths e ((List.takeWhile_sublist _).subset he) pv hpe
+  have hw0 : ∀ p ∈ V, Walkable [("global", .dict [("time", .int dt)])] p := by
+    intro p hp
+    cases p with
+    | nil => exact absurd rfl (hV.nonempty _ hp)
+    | cons k r =>
+      have hk : k ≠ "global" := by
+        have := hV.noGlobal _ hp; simpa using this
+      have : ¬ ("global" = k) := fun e => hk e.symm
+      cases r <;> simp [Walkable, KV.lookup, this]
   have hu0 : ∀ p ∈ V, resolve (.dict [("global", .dict [("time", .int dt)])]) p = Option.none := by
     intro p hp
     cases p with
@@ -647,8 +619,7 @@ theorem tick_eq_spec (V : List Path) (hV : WFVars V) (s : Sim) (hT : WFTimeline 
         have := hV.noGlobal _ hp; simpa using this
       have : ¬ ("global" = k) := fun e => hk e.symm
       simp [resolve_dict_cons, KV.lookup, this]
-  obtain ⟨u', h1, h2, h3⟩ := applyChanges_spec V hV _ hw [("global", .dict [("time", .int dt)])]
-    (fun p hp => Or.inl (hu0 p hp))
+  obtain ⟨u', h1, h2, h3⟩ := applyChanges_spec V hV _ hw [("global", .dict [("time", .int dt)])] hw0
   have hclock : look u' ["global", "time"] = some (.int dt) := by
     unfold look
     rw [h3]
@@ -686,8 +657,7 @@ theorem runTicks_eq_spec (V : List Path) (hV : WFVars V) (dts : List Int) (s : S
   | nil => rfl
   | cons dt rest ih =>
     have hT' : WFTimeline V (specTick dt s).timeline :=
-      ⟨fun e he => hT.paths e ((List.dropWhile_sublist _).subset he),
-       fun e he => hT.scalar e ((List.dropWhile_sublist _).subset he)⟩
+      ⟨fun e he => hT.paths e ((List.dropWhile_sublist _).subset he)⟩
     have hv' : ∀ pv ∈ (specTick dt s).vars, pv.1 ∈ V := by
       intro pv hpv
       have : pv.1 ∈ (specTick dt s).vars.map (·.1) := List.mem_map.mpr ⟨pv, hpv, rfl⟩
